@@ -872,6 +872,9 @@ func (c *fnctx) rangeStmt(s *ast.RangeStmt, cur env, after func(env) string) str
 	var stTypes, stPats, stInit []string
 	state := assignedOuter(s.Body, cur)
 	for _, n := range state {
+		if id, ok := s.X.(*ast.Ident); ok && id.Name == n {
+			dieAt(s, "loop assigns the collection it ranges over")
+		}
 		v := cur[n]
 		switch v.sh {
 		case shCounter, shSliceOpt:
